@@ -230,12 +230,23 @@ func faIsLetter(c byte) bool { return nd.And(c >= 'a', c <= 'z') }
 // symbolise replaces every collected leaf by a fresh symbolic value of the
 // same length/class and records the term "equals the original".
 func faSymbolise(leaves []*faLeaf) {
+	// LENVAR=1 (thorough tiers): one solver-chosen identifier or literal of
+	// the site is one byte LONGER than the instance's, so "equal up to length"
+	// comparisons are exercised too.
+	lenLeaf := -1
+	if nd.Param("LENVAR", 0) == 1 && len(leaves) > 0 {
+		lenLeaf = nd.Choose("lenleaf", len(leaves)+1) - 1
+	}
 	for k, l := range leaves {
 		tag := fmt.Sprintf("leaf%d", k)
+		extra := 0
+		if k == lenLeaf {
+			extra = 1
+		}
 		switch l.kind {
 		case faIdent:
 			o := l.orig.String()
-			s := nd.Str(tag, len(o))
+			s := nd.Str(tag, len(o)+extra)
 			for i := 0; i < len(s); i++ {
 				if i == 0 {
 					nd.Assume(nd.Or(faIsLetter(s[i]), nd.And(s[i] >= 'A', s[i] <= 'Z')))
@@ -244,7 +255,7 @@ func faSymbolise(leaves []*faLeaf) {
 				}
 			}
 			l.symS = s
-			l.eq = nd.StrEq(s, o)
+			l.eq = extra == 0 && nd.StrEq(s, o)
 			l.addr.SetString(s)
 		case faLit:
 			o := l.orig.String()
@@ -259,13 +270,13 @@ func faSymbolise(leaves []*faLeaf) {
 					l.symS, l.eq = o, true
 					continue
 				}
-				in := nd.Str(tag, len(o)-2)
+				in := nd.Str(tag, len(o)-2+extra)
 				for i := 0; i < len(in); i++ {
 					nd.Assume(nd.And(in[i] >= 'a', in[i] <= 'z'))
 				}
 				s = o[:1] + in + o[len(o)-1:]
 			default:
-				s = nd.Str(tag, len(o))
+				s = nd.Str(tag, len(o)+extra)
 				for i := 0; i < len(s); i++ {
 					nd.Assume(nd.And(s[i] >= '0', s[i] <= '9'))
 				}
@@ -274,7 +285,7 @@ func faSymbolise(leaves []*faLeaf) {
 				}
 			}
 			l.symS = s
-			l.eq = nd.StrEq(s, o)
+			l.eq = extra == 0 && nd.StrEq(s, o)
 			l.addr.SetString(s)
 		case faTok:
 			o := token.Token(l.orig.Int())
